@@ -23,6 +23,11 @@ WITH_NEUTRON = [[26, 0, 0], [26, 56, 0], [1, 0, 0], [1, 2, 0], [64, 0, 0], [79, 
 ENERGY_DEP = [[64, 0, 0], [64, 155, 0], [64, 157, 0], [71, 0, 0], [71, 176, 0], [62, 149, 0], [62, 0, 0], [63, 151, 0], [66, 164, 0], [68, 167, 0], [70, 168, 0]]
 MAGNETIC = [[26, 0, 0], [28, 0, 0], [25, 0, 0], [64, 0, 0], [27, 0, 0]]
 ACTIVATED = [[27, 59, 0], [79, 197, 0], [11, 23, 0], [26, 58, 0], [13, 27, 0]]
+READBACK = {"_mass", "_density", "_abundance", "_mass_unc", "_abundance_unc", "covalent_radius",
+            "covalent_radius_uncertainty", "K_alpha", "K_beta1", "density_caveat", "nuclear_spin",
+            "crystal_structure_assign", "crystal_structure_inplace", "neutron_assign", "neutron_field",
+            "neutron_field_dataless", "nsf_table_inplace", "magnetic_ff_field", "magnetic_ff_dict", "magnetic_ff_assign",
+            "activation_row_field", "activation_assign", "xray_newfield", "xray_sftable_inplace"}
 SETATTR = {"_mass", "_density", "_abundance", "_mass_unc", "_abundance_unc", "covalent_radius",
            "covalent_radius_uncertainty", "K_alpha", "K_beta1", "density_caveat", "nuclear_spin"}
 CRYSTAL = [[26, 0, 0], [29, 0, 0], [13, 0, 0], [6, 0, 0]]
@@ -192,7 +197,12 @@ def gen(seed, V, tier, index, bias=None):
             continue
         t = rng.choice(live_tables)
         r = rng.random()
-        if fam["mutator"] and cfg["public_mutator"] and rng.random() < 0.12:
+        spots = [e for e in extra + merged if e[0] == "mutate" and e[3] in READBACK]
+        if spots and rng.random() < 0.10:
+            # is a customisation made earlier still there (whatever happened to other tables since)?
+            e = rng.choice(spots)
+            ev = ["readback", e[1], e[2], e[3]]
+        elif fam["mutator"] and cfg["public_mutator"] and rng.random() < 0.12:
             # the user customises the PUBLIC table; private tables must not follow (symmetric isolation)
             ev = gen_mutation(rng, V, "public", pred, False)
         elif rng.random() < 0.08:
@@ -364,6 +374,20 @@ def c10_strata():
         out.append([["newtable", "T1"], ["init", "T1", "mass", False], ["init", "T1", "density", False],
                     ["formula_reuse", "T1", "H2O@1", op, "public"], ["formula_reuse", "public", "H2O@1", op, "T1"],
                     ["formula_reuse", "T1", "H2O@1", op, None]])
+    # a customisation of T1 survives re-initialisation of the same group on another private table and
+    # on the public table
+    for target, atom, g in (("_mass", [26, 0, 0], "mass"), ("_density", [26, 0, 0], "density"),
+                            ("covalent_radius", [26, 0, 0], "covalent_radius"), ("K_alpha", [29, 0, 0], "emission"),
+                            ("crystal_structure_inplace", [26, 0, 0], "crystal_structure"),
+                            ("neutron_field", [26, 0, 0], "neutron"), ("neutron_assign", [26, 56, 0], "neutron"),
+                            ("nsf_table_inplace", [64, 0, 0], "neutron"), ("magnetic_ff_field", [26, 0, 0], "magnetic_ff"),
+                            ("activation_row_field", [27, 59, 0], "activation"), ("xray_newfield", [26, 0, 0], "xray"),
+                            ("xray_sftable_inplace", [26, 0, 0], "xray"), ("xray_sftable_inplace", [26, 0, 2], "xray")):
+        out.append(two + [["mutate", "T1", atom, target], ["init", "T2", g, True], ["readback", "T1", atom, target],
+                          ["init", "public", g, True], ["readback", "T1", atom, target],
+                          ["newtable", "T3"], ["init", "T3", "mass", False], ["init", "T3", "density", False],
+                          ["init", "T3", g, False], ["readback", "T1", atom, target]])
+        out.append(two + [["mutate", "public", atom, target], ["init", "T2", g, True], ["readback", "public", atom, target]])
     # the caller edits its own Formula in place; the same string parsed for another table must not follow
     for op in ("own_iadd", "own_density", "own_name", "own_change_table"):
         for text in ("H2O@1", " ", "5wt% NaCl // H2O"):
